@@ -4,8 +4,8 @@ or logout, also across restarts.
 
 All theorems are about the executable model `AGH.C12` (Model/Auth.lean) that
 the correspondence check ties to internal/home on every run.  Histories are
-arbitrary lists of operations (login from any address with a right or wrong
-password, request with any token, logout, restart) separated by arbitrary
+arbitrary lists of operations (login requests from any TCP peer carrying any
+proxy-header address, with a right or wrong password, request with any token, logout, restart) separated by arbitrary
 clock advances.  `noWrap`: times stay below the uint32 horizon of
 `uint32(now.Unix()) + sessionTTL` (year 2106); beyond it the stored expiry
 wraps around, which is outside these theorems.
@@ -35,11 +35,16 @@ theorem C12_sim_reachable (ma bm ttl now : Nat) (evs : List Ev)
 `until` lies in the future rejects the attempt — right or wrong password —
 with 429, evaluates nothing, leaves sessions and the record itself untouched
 (the only change is the cleanup of expired records). -/
-theorem C12_blocked_until (st : St) (l : Limiter) (r : Rec) (now addr : Nat) (good : Bool) (user : Nat)
-    (hrl : st.rl = some l) (hrec : l.recs addr = some r) (hnum : r.num ≥ l.max) (hnow : now < r.untl) :
-    login st now addr good user =
+theorem C12_blocked_until (st : St) (l : Limiter) (r : Rec) (now : Nat) (req : Req) (good : Bool) (user : Nat)
+    (hrl : st.rl = some l) (hrec : l.recs (attemptAddr req) = some r) (hnum : r.num ≥ l.max)
+    (hnow : now < r.untl) :
+    handleLogin st now req good user =
       (.tooMany ((r.untl - now) / nsPerSec), { st with rl := some { l with recs := cleanup now l.recs } }) ∧
-    cleanup now l.recs addr = some r := by
+    cleanup now l.recs (attemptAddr req) = some r := by
+  rw [handleLogin_eq]
+  have hrec : l.recs req.peer = some r := hrec
+  show login st now req.peer good user = _ ∧ cleanup now l.recs req.peer = some r
+  generalize req.peer = addr at hrec ⊢
   have hc : cleanup now l.recs addr = some r := by
     have : ¬ now > r.untl := by omega
     simp [cleanup, hrec, Option.filter, this]
@@ -61,14 +66,17 @@ not evaluated (ghost counter unchanged) and no session is created; otherwise
 the password IS evaluated and the answer is 200 for a right and 403 for a
 wrong one. -/
 theorem C12_threshold {st : St} {sp : Spec} {now : Nat} (h : Sim st sp now)
-    (addr : Nat) (good : Bool) (user : Nat) :
-    (mustReject sp addr now = true →
-      (∃ r, (login st now addr good user).1 = .tooMany r) ∧
-      (login st now addr good user).2.evals = st.evals ∧
-      (login st now addr good user).2.mem = st.mem ∧ (login st now addr good user).2.db = st.db) ∧
-    (mustReject sp addr now = false →
-      (login st now addr good user).2.evals = st.evals + 1 ∧
-      (login st now addr good user).1 = if good then .ok st.nextTok else .forbidden) := by
+    (req : Req) (good : Bool) (user : Nat) :
+    (mustReject sp (attemptAddr req) now = true →
+      (∃ r, (handleLogin st now req good user).1 = .tooMany r) ∧
+      (handleLogin st now req good user).2.evals = st.evals ∧
+      (handleLogin st now req good user).2.mem = st.mem ∧ (handleLogin st now req good user).2.db = st.db) ∧
+    (mustReject sp (attemptAddr req) now = false →
+      (handleLogin st now req good user).2.evals = st.evals + 1 ∧
+      (handleLogin st now req good user).1 = if good then .ok st.nextTok else .forbidden) := by
+  rw [handleLogin_eq]
+  show (mustReject sp req.peer now = true → _) ∧ (mustReject sp req.peer now = false → _)
+  generalize req.peer = addr
   obtain ⟨hthr, _⟩ := h
   unfold SimThr at hthr
   cases hrl : st.rl with
@@ -94,10 +102,15 @@ theorem C12_threshold {st : St} {sp : Spec} {now : Nat} (h : Sim st sp now)
 /-- **Success clears the count** (one step, any state): a login that is not
 blocked and carries the right password succeeds and leaves no record for the
 address, so the next failure starts a new count. -/
-theorem C12_success_clears (st : St) (now addr user : Nat)
-    (hnb : ∀ l, st.rl = some l → ¬ (l.check addr now).1 > 0) :
-    (login st now addr true user).1 = .ok st.nextTok ∧
-    ∀ l', (login st now addr true user).2.rl = some l' → l'.recs addr = none := by
+theorem C12_success_clears (st : St) (now : Nat) (req : Req) (user : Nat)
+    (hnb : ∀ l, st.rl = some l → ¬ (l.check (attemptAddr req) now).1 > 0) :
+    (handleLogin st now req true user).1 = .ok st.nextTok ∧
+    ∀ l', (handleLogin st now req true user).2.rl = some l' → l'.recs (attemptAddr req) = none := by
+  rw [handleLogin_eq]
+  show (login st now req.peer true user).1 = .ok st.nextTok ∧
+    ∀ l', (login st now req.peer true user).2.rl = some l' → l'.recs req.peer = none
+  have hnb : ∀ l, st.rl = some l → ¬ (l.check req.peer now).1 > 0 := hnb
+  generalize req.peer = addr at hnb ⊢
   cases hrl : st.rl with
   | none =>
     rw [login_none hrl, evalLogin_good]
@@ -193,11 +206,11 @@ theorem C12_mem_mirrors_db (ma bm ttl now : Nat) (evs : List Ev)
 section Example
 def ex0 : Nat := 946684800 * nsPerSec
 def exEvs : List Ev :=
-  [.op (.login 0 false 0), .advance (30 * nsPerSec), .op (.login 0 false 0),   -- two failures in 30 s
-   .advance nsPerSec, .op (.login 0 true 0),                                     -- right password: blocked
-   .op (.login 1 true 0),                                                        -- another address: token 0
+  [.op (.login ⟨0, none, false⟩ false 0), .advance (30 * nsPerSec), .op (.login ⟨0, some 7, true⟩ false 0),   -- two failures in 30 s
+   .advance nsPerSec, .op (.login ⟨0, some 1, false⟩ true 0),                                     -- right password: blocked
+   .op (.login ⟨1, some 0, true⟩ true 0),                                                        -- another address: token 0
    .op (.request 0), .op .restart, .op (.request 0),                             -- valid before and after restart
-   .advance (59 * nsPerSec), .op (.login 0 true 1),                              -- block elapsed: token 1
+   .advance (59 * nsPerSec), .op (.login ⟨0, none, false⟩ true 1),                              -- block elapsed: token 1
    .op (.logout 0), .op .restart, .op (.request 0), .op (.request 1),
    .advance (3600 * nsPerSec), .op (.request 1)]                                 -- expired
 
@@ -213,6 +226,13 @@ def exObs : St → Nat → List Ev → List Obs
 example : exObs (St.init 2 1 3600) ex0 exEvs =
     [.login .forbidden, .login .forbidden, .login (.tooMany 59), .login (.ok 0),
      .auth true, .done, .auth true, .login (.ok 1), .done, .done, .auth false, .auth true, .auth false] := by
+  decide
+
+/-- Sensitivity of the model to the two keys of handleLogin: were the failures
+counted under another address than the one the gate looks at (limit 1), the
+second wrong password would still be evaluated (403) instead of rejected. -/
+example : (loginAt (loginAt (St.init 1 1 3600) ex0 0 0 false 0).2 ex0 0 0 false 0).1 = .tooMany 60 ∧
+    (loginAt (loginAt (St.init 1 1 3600) ex0 0 5 false 0).2 ex0 0 5 false 0).1 = .forbidden := by
   decide
 
 end Example
